@@ -78,12 +78,24 @@ func (self *BinaryConv) do(ctx context.Context, src []byte, desc *thrift.TypeDes
 	}
 
 	// special case for unquoted json string
-	if desc.Type() == thrift.STRING && src[0] != '"' {
+	// (a quoted string may be preceded by JSON whitespace: it is still a JSON string)
+	if desc.Type() == thrift.STRING && !startsWithQuote(src) {
 		buf := make([]byte, 0, len(src)+2)
 		src = json.EncodeString(buf, rt.Mem2Str(src))
 	}
 
 	return self.doImpl(ctx, src, desc, buf, req, true)
+}
+
+func startsWithQuote(src []byte) bool {
+	for _, c := range src {
+		switch c {
+		case ' ', '\t', '\r', '\n':
+			continue
+		}
+		return c == '"'
+	}
+	return false
 }
 
 func isJsonString(val string) bool {
